@@ -96,12 +96,12 @@ func cOptPairZ(r, s *big.Int, ok bool) string {
 // ---- observation trees ----
 
 func oT(name string, kids ...string) string { return `OT "` + name + `" ` + cList(kids) }
-func oB(b []byte) string                     { return "OB " + cBytes(b) }
-func oZ(n int64) string                      { return "OZ " + cZ(n) }
-func oG(v any) string                        { return "OG " + cGv(v) }
-func oOk(kids ...string) string              { return oT("ok", kids...) }
-func oErrCls(cls string) string              { return oT("err", oT(cls)) }
-func oPanic() string                         { return oT("panic") }
+func oB(b []byte) string                    { return "OB " + cBytes(b) }
+func oZ(n int64) string                     { return "OZ " + cZ(n) }
+func oG(v any) string                       { return "OG " + cGv(v) }
+func oOk(kids ...string) string             { return oT("ok", kids...) }
+func oErrCls(cls string) string             { return oT("err", oT(cls)) }
+func oPanic() string                        { return oT("panic") }
 func oGoBytes(b []byte) string {
 	if b == nil {
 		return oT("nil")
